@@ -120,6 +120,11 @@ func c08Inverse(c *Ctx, g *gameModel) {
 							if vstrOf(fin) != vstrOf(absint.Zero(g.bm.resultT)) && (init == nil || !sameUnder(o.St, fin, init)) {
 								bad = "saved-result slot of the restored node is " + vstrOf(fin) + ", expected empty"
 							}
+						case strings.HasSuffix(k, "(.current(b))") && isScratchGroup(k, o.St, g):
+							// the forward link and the saved result grouped in one struct field of the node: empty
+							if addr, ok := o.St.SymAddr[k].(*absint.Sym); !ok || vstrOf(fin) != vstrOf(absint.Zero(addr.T.Underlying().(*types.Pointer).Elem())) {
+								bad = "the departure record of the restored node is " + vstrOf(fin) + ", expected empty"
+							}
 						case k == "&.next(.current(b))":
 							if vstrOf(fin) != vstrOf(absint.Zero(g.bm.moveT)) {
 								bad = "forward link of the restored node is " + vstrOf(fin) + ", expected the empty move"
@@ -169,6 +174,30 @@ func isResultSlot(key string, st *absint.State, g *gameModel) bool {
 	}
 	pt, ok := addr.T.Underlying().(*types.Pointer)
 	return ok && types.Identical(pt.Elem(), g.bm.resultT)
+}
+
+// isScratchGroup: the address key names a struct-typed field of the head node made of nothing but the forward
+// move and the saved result (the two scratch slots grouped in one embedded struct).
+func isScratchGroup(key string, st *absint.State, g *gameModel) bool {
+	addr, ok := st.SymAddr[key].(*absint.Sym)
+	if !ok || addr.T == nil || g.bm.resultT == nil || g.bm.moveT == nil {
+		return false
+	}
+	pt, ok := addr.T.Underlying().(*types.Pointer)
+	if !ok {
+		return false
+	}
+	stt, ok := pt.Elem().Underlying().(*types.Struct)
+	if !ok || stt.NumFields() == 0 {
+		return false
+	}
+	for i := 0; i < stt.NumFields(); i++ {
+		ft := stt.Field(i).Type()
+		if !types.Identical(ft, g.bm.resultT) && !types.Identical(ft, g.bm.moveT) {
+			return false
+		}
+	}
+	return true
 }
 
 // sameUnder decides a == b under the path's facts.
@@ -436,6 +465,11 @@ func c08NoMut(c *Ctx, g *gameModel) {
 		if fs.Field == "next" && !fs.Whole && headNodeInFamily(fs.Base, g, nodeT, fam, 0) && famOrNodeMethod(fs.Fn, fam) {
 			continue
 		}
+		// the forward link and the saved result grouped in one struct-typed field (an embedded record): written by
+		// push/pop on the head node, and outside push/pop only its forward-move part is ever read
+		if fam[fs.Fn] && !fs.Whole && (isHeadNode(fs.Base, g) || headNodeInFamily(fs.Base, g, nodeT, fam, 0)) && scratchGroupField(c, g, nodeT, fs.Field, fam) {
+			continue
+		}
 		what := fs.Field
 		if fs.Whole {
 			what = "(whole node)"
@@ -521,3 +555,50 @@ func headNodeInFamily(v ssa.Value, g *gameModel, nodeT *types.Named, fam map[*ss
 }
 
 func famOrNodeMethod(fn *ssa.Function, fam map[*ssa.Function]bool) bool { return fam[fn] }
+
+// scratchGroupField: the node field is a struct made of nothing but forward move and saved result, and every read
+// of it outside the push/pop family goes on to its move-typed part.
+func scratchGroupField(c *Ctx, g *gameModel, nodeT *types.Named, field string, fam map[*ssa.Function]bool) bool {
+	st := nodeT.Underlying().(*types.Struct)
+	idx := -1
+	for i := 0; i < st.NumFields(); i++ {
+		if st.Field(i).Name() == field {
+			idx = i
+		}
+	}
+	if idx < 0 || g.bm.resultT == nil || g.bm.moveT == nil {
+		return false
+	}
+	gt, ok := st.Field(idx).Type().Underlying().(*types.Struct)
+	if !ok || gt.NumFields() == 0 {
+		return false
+	}
+	for i := 0; i < gt.NumFields(); i++ {
+		if ft := gt.Field(i).Type(); !types.Identical(ft, g.bm.resultT) && !types.Identical(ft, g.bm.moveT) {
+			return false
+		}
+	}
+	for _, fn := range c.P.AllFuncs {
+		if fam[fn] {
+			continue
+		}
+		for _, b := range fn.Blocks {
+			for _, ins := range b.Instrs {
+				fa, ok := ins.(*ssa.FieldAddr)
+				if !ok || fa.Field != idx {
+					continue
+				}
+				if n := namedOf(fa.X.Type()); n == nil || n.Obj() != nodeT.Obj() {
+					continue
+				}
+				for _, ref := range *fa.Referrers() {
+					sub, ok := ref.(*ssa.FieldAddr)
+					if !ok || !types.Identical(gt.Field(sub.Field).Type(), g.bm.moveT) {
+						return false
+					}
+				}
+			}
+		}
+	}
+	return true
+}
